@@ -78,4 +78,22 @@ def simulate (m : Model) (P : Params) (V : List (Tensor Ext)) (init : List (List
       recs :: go k (t + 1) nxt'
   go T 0 init
 
+/-- by-name evaluation of a model function at a frame row: the row's variables (states and choices, any order),
+`_period = t` and the parameters (driver op `eval_funcs`) -/
+def evalAt (m : Model) (P : Params) (row : List (Name × Rat)) (t : Nat) (name : Name) : Option Val :=
+  callF m P m.fuel (toEnv row ++ periodEnv t) name
+
+/-- `_compute_targets`, one cell: the target evaluated at the record of row (t, i) -/
+def targetCell (m : Model) (P : Params) (t : Nat) (r : Record) (name : Name) : Option Val :=
+  evalAt m P (r.states ++ r.choices) t name
+
+/-- one column of additional targets over the whole panel, period-major -/
+def targetColumn (m : Model) (P : Params) (results : List (List Record)) (name : Name) : List (Option Val) :=
+  (results.zipIdx.map fun (rt : List Record × Nat) => rt.1.map fun r => targetCell m P rt.2 r name).flatten
+
+/-- all requested target columns -/
+def targetColumns (m : Model) (P : Params) (results : List (List Record)) (names : List Name) :
+    List (Name × List (Option Val)) :=
+  names.map fun n => (n, targetColumn m P results n)
+
 end Lcm
